@@ -27,7 +27,7 @@ use simkit::{
 
 use crate::{
     model::{Failure, Model},
-    program::{Kind, Val},
+    program::Val,
     queries::{Ex, Harness, In, query_node, register_all, repair_tfc_node},
     scenario::{Op, RunCfg, Scenario, SchedCfg, SessStep, Storage},
 };
@@ -194,6 +194,7 @@ impl<'a, C: SimCfg> Runner<'a, C> {
         let te = self.tracked.as_ref().unwrap();
         let v = query_node(te, &self.sc.program, root).await;
         self.drain()?;
+        self.model.request_end();
         self.model.serve(root, &v, ctx)
     }
 
@@ -290,12 +291,16 @@ impl<'a, C: SimCfg> Runner<'a, C> {
     /// design every later request is covered.
     async fn warm_up(&mut self) -> Result<(), Failure> {
         self.ensure_tracked(true).await;
-        for n in (0..self.sc.program.len()).rev() {
+        // ascending: when the pass of node m runs, the passes of all n < m
+        // are done, so every node a firewall of T(m) may newly read has a
+        // fully repaired closure
+        for n in 0..self.sc.program.len() {
             if self.model.execs.contains_key(&n) {
                 self.model.repair_tfc_request(n);
                 let te = self.tracked.as_ref().unwrap();
                 repair_tfc_node(te, &self.sc.program, n).await;
                 self.drain()?;
+                self.model.request_end();
             }
         }
         self.tracked = None;
@@ -319,7 +324,9 @@ impl<'a, C: SimCfg> Runner<'a, C> {
                 self.model.repair_tfc_request(*root);
                 let te = self.tracked.as_ref().unwrap();
                 repair_tfc_node(te, &self.sc.program, *root).await;
-                self.drain()
+                self.drain()?;
+                self.model.request_end();
+                Ok(())
             }
             other => Err(fail("harness_error", format!("op not supported here: {other:?}"))),
         }
@@ -344,6 +351,7 @@ impl<'a, C: SimCfg> Runner<'a, C> {
 
 fn run_generic<C: SimCfg>(sc: &Scenario, decisions: Option<&[Decision]>) -> Outcome {
     simkit::panics::install();
+    crate::queries::install_hooks();
     let _ = simkit::panics::drain();
     let rt = tokio::runtime::Builder::new_current_thread()
         .enable_time()
@@ -352,6 +360,7 @@ fn run_generic<C: SimCfg>(sc: &Scenario, decisions: Option<&[Decision]>) -> Outc
         .unwrap();
     sched::install(make_controller(&sc.cfg, decisions));
     let h = Harness::new(sc.program.clone());
+    crate::queries::set_event_sink(Some(h.clone()));
     let mut model = Model::new(&sc.program);
     model.check_c03 = sc.cfg.check_c03;
     let mut runner = Runner::<C> {
@@ -387,6 +396,7 @@ fn run_generic<C: SimCfg>(sc: &Scenario, decisions: Option<&[Decision]>) -> Outc
         r
     });
     drop(rt);
+    crate::queries::set_event_sink(None);
     let ctl = sched::take().unwrap();
     let panics = simkit::panics::drain();
     let mut failure = res.err();
